@@ -71,6 +71,9 @@ def run_load_ack(case):
     else:
         if after != before:
             res.fail("C20/load_ack-invalid-touches-fifo", "load_ack(%d bytes, pipe %d) changed the TX FIFO" % (len(buf), pipe))
+        if valid and got is not False:
+            # the status byte was refreshed by update() right before the call, so the driver knows the FIFO is full
+            res.fail("C20/load_ack-return/full-fifo", "load_ack(%d bytes, pipe %d) returned %r with a full TX FIFO" % (len(buf), pipe, got))
         if not valid and got is not False:
             res.fail("C20/load_ack-invalid-return", "load_ack(%d bytes, pipe %d) returned %r" % (len(buf), pipe, got))
     if chip.illegal:
